@@ -24,6 +24,12 @@ def run(ctx):
         for k in ("epoch.created", "block.emission", "alloc.paid", "vote.valid.ok", "delegate.ok"):
             if st.get(k, 0) == 0:
                 ctx.fail("infra", "gauge generator never produced " + k, json.dumps(st))
+    # epochs, gauges and votes across a genesis export/import: the chain started from the export must keep allocating to the same
+    # gauges and prune the same epochs (the genesis suite's round trip, restricted to this module's rows)
+    from checks import c19
+    r2 = c19.roundtrip_rows(ctx, "module=liquidityincentive ")
+    if r2 is not None:
+        fw.report_corr(ctx, "genesis", r2, known_features=lambda f: {"check": f["check"]})
     if ctx.thorough() and ok:
         ctx.leanchecker(MODULES)
 
